@@ -217,6 +217,7 @@ func TestSrvSeq(t *testing.T) {
 	if Thorough() {
 		n = EnvInt("HX_N", 5000)
 	}
+	runCorpus(t, s) // minimised past failures first
 	for i := 0; i < n; i++ {
 		c := GenSrvConf(r)
 		synctest.Test(t, func(t *testing.T) { srvScript(t, r, s, c, nil) })
